@@ -272,7 +272,7 @@ def fault_pipeline(work, rep, tier, seed, prop):
     progs = scenario_programs(work)
     maxf = 1 if tier == "quick" else 2
     plans = []   # (store kind for the driver, level, runs)
-    runs_by = {("inmem", "iface"): [], ("sqlfault", "iface"): [], ("sqlfault", "driver"): [], ("sqlfault", "fetch"): []}
+    runs_by = {("inmem", "iface"): [], ("sqlfault", "iface"): [], ("sqlfault", "driver"): [], ("sqlfault", "fetch"): [], ("inmem", "panic"): [], ("sqlfault", "panic"): []}
     nplace = 0
     for scen, db in HIST.items():
         for store, ds in (("InMem", False), ("Sql1", True)):
@@ -324,7 +324,7 @@ def fault_pipeline(work, rep, tier, seed, prop):
                     steps.append(st_)
                 pre = [x for x in (seqfam.tofu_steps(db0_of(db), 2) if db == "s1" else []) if x["log"] == "l1"]
                 for stkind in ("inmem", "sqlfault"):
-                    runs_by[(stkind, "iface")].append({"id": "%s-panic%d%s" % (scen, k_, call), "steps": pre + steps + TAIL})
+                    runs_by[(stkind, "panic")].append({"id": "%s-panic%d%s" % (scen, k_, call), "steps": pre + steps + TAIL})
                 npn += 1
         rep.cov.setdefault("storage_call_panics_recovered_by_the_caller", {})[scen] = npn
     jc = seqfam.consts(Logs={"l1", "l2"}, MaxSize=3, NBranch=2, ForkAt=Sub("Fork_1"))
@@ -334,7 +334,16 @@ def fault_pipeline(work, rep, tier, seed, prop):
             continue
         rp, tp = work.path("f-%s-%s.jsonl" % (store, lv)), work.path("f-%s-%s.ndjson" % (store, lv))
         write_runs(rp, OPS_PARAMS, runs)
-        o, dt = run_driver(["seq", "-in", rp, "-out", tp, "-store", store, "-embed", "id", "-seed", str(seed), "-workers", str(NCPU), "-dir", work.sub("db"), "-faults"])
+        try:
+            o, dt = run_driver(["seq", "-in", rp, "-out", tp, "-store", store, "-embed", "id", "-seed", str(seed), "-workers", str(NCPU), "-dir", work.sub("db"), "-faults"])
+        except Inconclusive as e:
+            if lv == "panic" and "injected panic" in str(e):
+                # the code under verification made the storage call on a goroutine of its own: the injected panic could not be recovered by the
+                # caller and took the driver process down. Those runs say nothing; the other groups are judged as usual.
+                rep.notes.append("%s/panic runs not judged: the injected storage panic was raised on a goroutine the code started itself" % store)
+                rep.cov["panic_runs_not_judged"] = rep.cov.get("panic_runs_not_judged", 0) + len(runs)
+                continue
+            raise
         rep.notes.append("%s/%s: %s" % (store, lv, o.strip()))
         events = read_ndjson(tp)
         fails = seqfam.judge(work, rep, jc, tp, name="judge-%s-%s" % (store, lv))
